@@ -410,6 +410,10 @@ func compile(c Case) string {
 		if sc == "recv" {
 			b.WriteString("  set req.backend = origin;\n")
 		}
+		if sc == "hash" {
+			// what Fastly's own boilerplate does: the key must be derived afresh on every attempt of a request
+			b.WriteString("  set req.hash += req.url;\n  set req.hash += req.http.host;\n")
+		}
 		seen := map[string]bool{}
 		first := true
 		for _, a := range arms[sc] {
